@@ -17,7 +17,7 @@ func init() {
 	register("C10", checkC10)
 	describe("C10", Meta{
 		Technique: "ownership rule over resolved field objects (who may store to the topology fields), block-level pairing of Internal_inputs/Links size changes and of port counters with their endpoint lists, and index-space inference (INDEXKIND) inside every topology editor",
-		Claim:     "Decides structural clauses of C10: (a) only methods of Bondmachine (through their receiver) or code building a freshly allocated machine store to Links / Internal_inputs / Internal_outputs / Inputs / Outputs / Processors / Shared_links; (b) every block that grows, shrinks or replaces Internal_inputs does the same to Links (one link slot per internal input); (c) inside the editors, values stored into Links are internal-output indices and comparisons relate indices of one space; (d) the Inputs/Outputs counters change together with the endpoint lists; (e) DERIVED: any other field of Bondmachine that is filled with positions in Internal_inputs/Internal_outputs is refreshed or invalidated by every method that stores to that list. Necessary conditions for well-formedness after edits; that the right element is removed and the renumbering arithmetic are not decided.",
+		Claim:     "Decides structural clauses of C10: (a) only methods of Bondmachine (through their receiver) or code building a freshly allocated machine store to Links / Internal_inputs / Internal_outputs / Inputs / Outputs / Processors / Shared_links; (b) every block that grows, shrinks or replaces Internal_inputs does the same to Links (one link slot per internal input); (c) inside the editors, values stored into Links are internal-output indices and comparisons relate indices of one space; (d) the Inputs/Outputs counters change together with the endpoint lists; (c') the processor number printed into an endpoint name ('p' followed by the number) by an editor or a composite editor is a processor index; (e) DERIVED: any other field of Bondmachine that is filled with positions in Internal_inputs/Internal_outputs is refreshed or invalidated by every method that stores to that list. Necessary conditions for well-formedness after edits; that the right element is removed and the renumbering arithmetic are not decided.",
 		Note:      "Flow-insensitive within a block; 'fresh' means the machine variable is initialised with new(Bondmachine)/&Bondmachine{}/a Bondmachine value in the same function.",
 		DesignRef: "DESIGN.md §2 C10",
 	})
@@ -359,7 +359,9 @@ func checkC10(r *core.Run) {
 
 	// (c) index kinds inside the editors
 	e := newIKEngine(r, prog, "C10")
-	e.run([]string{"pkg/bondmachine", "cmd/bondmachine", "pkg/bmbuilder", "pkg/bondgo", "pkg/basm"}, func(pk *packages.Package, fd *ast.FuncDecl) bool { return e.storesTopology(pk, fd) })
+	e.run([]string{"pkg/bondmachine", "cmd/bondmachine", "pkg/bmbuilder", "pkg/bondgo", "pkg/basm"}, func(pk *packages.Package, fd *ast.FuncDecl) bool {
+		return e.storesTopology(pk, fd) || callsTopologyEditor(pk, fd)
+	})
 }
 
 // freshMachines: locals initialised with a newly allocated Bondmachine in this function.
@@ -681,4 +683,33 @@ func c10Derived(r *core.Run, prog *core.Program, bm *packages.Package, st *types
 		}
 	}
 	r.Count("derived_index_refresh_obligations", n)
+}
+
+
+// callsTopologyEditor: the function edits a machine through the edit API (a composite editor such as
+// Attach_benchmark_core, or a command-line front-end): it calls an Add_*/Del_*/Attach*/Connect* method
+// of Bondmachine.
+func callsTopologyEditor(pk *packages.Package, fd *ast.FuncDecl) bool {
+	found := false
+	ast.Inspect(fd.Body, func(n ast.Node) bool {
+		call, ok := n.(*ast.CallExpr)
+		if !ok || found {
+			return !found
+		}
+		c, ok := core.CalleeOf(pk.TypesInfo, call).(*types.Func)
+		if !ok || c.Pkg() == nil || !strings.HasSuffix(c.Pkg().Path(), "pkg/bondmachine") {
+			return true
+		}
+		sig, _ := c.Type().(*types.Signature)
+		if sig == nil || sig.Recv() == nil || !strings.HasSuffix(strings.TrimPrefix(sig.Recv().Type().String(), "*"), "pkg/bondmachine.Bondmachine") {
+			return true
+		}
+		for _, pre := range []string{"Add_", "Del_", "Attach", "Connect_", "Disconnect_"} {
+			if strings.HasPrefix(c.Name(), pre) {
+				found = true
+			}
+		}
+		return true
+	})
+	return found
 }
